@@ -10,13 +10,18 @@ GEN = []
 RULE = ("dense families: 1-3 layers x 2-6 overloads with 1-3 visible parameters typed either over the chain-and-diamond part of "
         "the lattice (A, B, D(A,B), E(D)) or over a mutually unrelated pool (object, A, B, G(A), H(G,B), AnyOf(...)) where "
         "specialization of mappings is not transitive; optional hidden/default/keyword-only (multi-word names)/*args; exclusive "
-        "layers register a random subset of their overloads with exclusive=True; calls with D/E/H instances and with values only "
+        "layers register a random subset of their overloads with exclusive=True; 40% of the layers with >= 2 overloads are MultiContexts "
+        "(2-3 member contexts, optionally behind a LinkedContext) whose members hold the overloads and the exclusive marks; 20% of the "
+        "overloads carry a registration history (the same decorated callable derived before under another convention, derived definitions "
+        "changed through strip_hidden_parameters / insert_parameter / clone); calls with D/E/H instances and with values only "
         "outer layers accept; overloads are registered AND enumerated in the order of the family, which is random in C and runs "
-        "through all permutations in O; non-trivial = some layer has >= 2 candidates; distinct = distinct (family, call)")
+        "through all permutations in O together with all member orders of MultiContext layers and two alternative registration histories; "
+        "an identity census requires that no ParameterDefinition object belongs to two FunctionDefinitions; non-trivial = some layer has >= 2 candidates; distinct = distinct (family, call)")
 TRUSTED = ["Model/Resolution.v (transcription; tied by this correspondence)",
            "harness/resolution_common.py: OrderedContext (get_functions returns the harness-chosen ordered list), probes, canonicalisation"]
 ASSUMPTIONS = ["the sources of order are the iteration order of the collection returned by get_functions for each layer and the "
-               "order of the register_function calls (with their exclusive= options) that built the layer",
+               "order of the register_function calls (with their exclusive= options) that built the layer, the order of the member contexts of a "
+               "MultiContext layer, and what else was derived from the same decorated callable in the process (registration history)",
                "FunctionDefinition identities are unique"]
 EXPLANATION = ("proof that the model's outcome is invariant under any permutation of every layer + differential check of the model "
                "against the real runner under harness-chosen enumeration orders + exhaustive permutation oracle on the real runner")
